@@ -36,6 +36,25 @@ CLAIMED["C14"] = ("other",
     "Trusted: clang 14 front end; LLVM sroa/early-cse; irx; the Python fact engine.",
     "static analysis: SSA value-identity and provenance rules + available facts on LLVM IR (custom checker)", "DESIGN.md §3 C14")
 
+CLAIMED["C10"] = ("other",
+    "Static call-graph, path and provenance analysis of the extraction code (claimed in part): no call path from the list/test/dry-run commands to any "
+    "filesystem-mutating function and the mutating calls of extract/print lie behind dry_run == 0; libc mutators are confined to lib/lha_arch_unix.c and "
+    "every other fopen is read-only; lha_arch_fopen unlinks then opens with O_CREAT|O_EXCL (no O_TRUNC) and wraps that descriptor, lha_arch_symlink unlinks first; "
+    "a dangerous symlink of a normal entry becomes a placeholder, real creation of deferred links happens only after input and directory stack are exhausted, "
+    "the deferred list stays in decreasing path-length order; the strings appended to the output path start at a byte != '/'; directory metadata is applied "
+    "only to directories whose mkdir succeeded in this run. These are necessary conditions of the property, decided for all archives and option sets at once. "
+    "Not decided: how the kernel resolves paths, crash-point interleavings, collapse_path's internals (C11).",
+    "Trusted: clang 14 front end; LLVM sroa/early-cse; irx; the Python engines; indirect calls resolved by (struct, field) tables with type-based fallback; the libc mutator deny-list; Linux O_* values.",
+    "static analysis: whole-program call-graph reachability (who-may-call), available-facts dataflow and predicate path states on LLVM IR (custom checker)", "DESIGN.md §3 C10")
+CLAIMED["C15"] = ("other",
+    "Static global-state and wiring analysis (claimed in part): every global and function-local static defined by lib/ is never the target of a store/copy and "
+    "table struct types are never written through any pointer, lib/ calls no non-reentrant libc function - hence operations on one reader cannot affect another, "
+    "interleaved or on different threads; lha_reader_next_file returns a header only if the state was not EOF and only it and the constructor write the state; the "
+    "unread remainder of a member is skipped before the next header is read and the remaining-bytes counter decreases by exactly the compressed bytes handed out. "
+    "Not decided: the order in which directories and deferred symlinks are re-presented under the three policies (a property of call histories).",
+    "Trusted: clang 14 front end; LLVM sroa/early-cse; irx; the Python engines; strict-typing assumption for the 'no store through struct type' rule; the non-reentrant libc deny-list.",
+    "static analysis: global mutability classification (store/escape roots), who-may-write field rules, available-facts dataflow and cut sets on LLVM IR (custom checker)", "DESIGN.md §3 C15")
+
 NOT_APPLICABLE = {
     "C01": "decode exactness is an equality of runtime byte streams produced by table-driven Huffman state machines; no structural clause is a necessary condition the tests leave open (DESIGN §4)",
     "C02": "lock-step of the adaptive -lh1- tree with LZHUF is an equality over runtime symbol histories (tie-break order, rebuild threshold are value computations); not decidable by static analysis in reach (DESIGN §4)",
